@@ -617,6 +617,34 @@ def tag_cds_start_nf(case: Case, rng: random.Random) -> List[str]:
     return chosen
 
 
+def tag_transcripts(case: Case, rng: random.Random, tag: str, frac: float = 0.6) -> List[str]:
+    """add `tag <tag>` to the records of some coding transcripts that do not carry it (GTF text
+    edit).  With `mRNA_start_NF` (and no `cds_start_NF`): the 5' end of the transcript is incomplete,
+    the CDS start is known — the canonical pool keeps the Met-removed N-terminal peptides."""
+    lines = open(case.gtf).read().split('\n')
+    txs = []
+    for ln in lines:
+        f = ln.split('\t')
+        if len(f) > 8 and f[2] == 'transcript' and 'is_protein_coding true' in f[8] and tag not in f[8]:
+            tx = [a.strip().split(' ')[1] for a in f[8].split(';') if a.strip().startswith('transcript_id')][0]
+            txs.append(tx)
+    chosen = [t for t in txs if rng.random() < frac]
+    if not chosen:
+        return []
+    out = []
+    for ln in lines:
+        f = ln.split('\t')
+        if len(f) > 8:
+            tx = [a.strip().split(' ')[1] for a in f[8].split(';') if a.strip().startswith('transcript_id')]
+            if tx and tx[0] in chosen and tag not in f[8]:
+                ln = ln.replace(' gene_type ', f' tag {tag}; gene_type ', 1) if ' gene_type ' in ln \
+                    else ln + f' tag {tag};'
+        out.append(ln)
+    with open(case.gtf, 'wt') as fh:
+        fh.write('\n'.join(out))
+    return chosen
+
+
 def duplicate_isoforms(case: Case, records):
     """Give every gene a second, identical isoform (<tx>B) in GTF + proteome and
     duplicate every small-variant record for it, so that two transcripts of one batch
